@@ -100,3 +100,167 @@ kproof! {
         core::mem::forget(c); core::mem::forget(c2); core::mem::forget(r3);
     }
 }
+
+// ---------------------------------------------------------------------------
+// Block sequence / EOF signalling mirror over CONTRACT stubs (C02, C08): the REAL encode_mispredictions /
+// predict_blocks / decode_mispredictions / recreate_blocks run with every callee replaced by its contract:
+//   * TokenPredictor::predict_block(b): Err, or records what identifies b (type, tag, plaintext length) in the codec and
+//     advances the input by b's plaintext length (mirror lemma k02m_*; `last_block` is logged and checked);
+//   * TokenPredictor::recreate_block: reads that record back and advances the input identically;
+//   * predict_tree_for_block / recreate_tree_for_block: a marker pair in the codec (mirror lemma k02b/k02c/k07c);
+//   * DeflateWriter::encode_block / flush_with_padding: logged (type, tag, tree tag, final flag / padding).
+// What is left is exactly process.rs's own logic: where EOFMisprediction flags are written and read, the order of block
+// and tree corrections, which block gets the final flag, the trailing padding correction.
+// ---------------------------------------------------------------------------
+pub const PB_MAX: usize = 4;
+pub static mut PB_N: [u8; PB_MAX] = [0x51; PB_MAX];        // plaintext length of block i (by tag)
+pub static mut PB_LAST: [u8; PB_MAX] = [0x52; PB_MAX];     // last_block flag seen by predict_block for tag i (2 = not called)
+pub static mut PB_CALLS: usize = 0x5EED_0000_0000_0053;
+pub static mut WB_LOG: [[u8; 4]; PB_MAX] = [[0x54; 4]; PB_MAX]; // encode_block calls: type, tag, tree tag, final flag
+pub static mut WB_CALLS: usize = 0x5EED_0000_0000_0055;
+pub static mut WB_PAD: u32 = 0x5EED_0056;                   // flush_with_padding argument + 0x100 once called
+pub static mut PB_FAIL_AT: usize = 0x5EED_0000_0000_0057;   // predict_block call that reports Err (>= PB_MAX: none)
+const TREE_MARK: u16 = 0x2A5;
+
+fn bt_of(t: u8) -> BlockType { match t { 0 => BlockType::Stored, 1 => BlockType::StaticHuff, _ => BlockType::DynamicHuff } }
+fn t_of(b: BlockType) -> u8 { match b { BlockType::Stored => 0, BlockType::StaticHuff => 1, BlockType::DynamicHuff => 2 } }
+pub fn contract_predict_block<'a, D: PredictionEncoder>(this: &mut TokenPredictor<'a>, block: &PreflateTokenBlock, codec: &mut D, last_block: bool) -> Result<(), PreflateError> where 'a: 'a {
+    unsafe {
+        let call = PB_CALLS;
+        PB_CALLS += 1;
+        let tag = block.padding_bits as usize;
+        assert!(tag < PB_MAX);
+        PB_LAST[tag] = last_block as u8;
+        if call == PB_FAIL_AT { return crate::preflate_error::err_exit_code(ExitCode::PredictBlock, ""); }
+        codec.encode_value(t_of(block.block_type) as u16, 2);
+        codec.encode_value(tag as u16, 3);
+        codec.encode_value(PB_N[tag] as u16, 8);
+        assert!(PB_N[tag] as u32 <= this.verif_remaining(), "predict_block contract: block plaintext exceeds the remaining input");
+        this.verif_advance(PB_N[tag] as u32);
+    }
+    Ok(())
+}
+pub fn contract_recreate_block<'a, D: PredictionDecoder>(this: &mut TokenPredictor<'a>, codec: &mut D) -> Result<PreflateTokenBlock, PreflateError> where 'a: 'a {
+    let bt = codec.decode_value(2);
+    let tag = codec.decode_value(3);
+    let n = codec.decode_value(8) as u32;
+    let mut b = PreflateTokenBlock::new(bt_of(bt as u8));
+    b.padding_bits = tag as u8;
+    assert!(n <= this.verif_remaining(), "recreate_block contract: block plaintext exceeds the remaining input");
+    this.verif_advance(n);
+    Ok(b)
+}
+pub fn contract_predict_tree<D: PredictionEncoder>(huffman_encoding: &HuffmanOriginalEncoding, _freq: &crate::preflate_token::TokenFrequency, encoder: &mut D, _huffcalc: HufftreeBitCalc) -> Result<(), PreflateError> {
+    encoder.encode_value(TREE_MARK, 10);
+    encoder.encode_value(huffman_encoding.num_code_lengths as u16, 5);
+    Ok(())
+}
+pub fn contract_recreate_tree<D: PredictionDecoder>(_freq: &crate::preflate_token::TokenFrequency, codec: &mut D, _huffcalc: HufftreeBitCalc) -> Result<HuffmanOriginalEncoding, PreflateError> {
+    let m = codec.decode_value(10);
+    assert!(m == TREE_MARK);
+    let mut h = HuffmanOriginalEncoding::default();
+    h.num_code_lengths = codec.decode_value(5) as usize;
+    Ok(h)
+}
+pub fn contract_encode_block(_this: &mut DeflateWriter, block: &PreflateTokenBlock, last: bool) -> Result<(), PreflateError> {
+    unsafe {
+        let c = WB_CALLS;
+        WB_CALLS += 1;
+        if c < PB_MAX { WB_LOG[c] = [t_of(block.block_type), block.padding_bits, block.huffman_encoding.num_code_lengths as u8, last as u8]; }
+    }
+    Ok(())
+}
+pub fn contract_flush_with_padding(_this: &mut DeflateWriter, padding: u8) {
+    unsafe { WB_PAD = 0x100 + padding as u32; }
+}
+use crate::huffman_encoding::HuffmanOriginalEncoding;
+
+fn block_sequence<const NB: usize>() {
+    const T: usize = 6;
+    let text: [u8; T] = kani::any();
+    let mut blocks: Vec<PreflateTokenBlock> = Vec::with_capacity(NB);
+    let mut total: usize = 0;
+    let mut types = [0u8; PB_MAX];
+    let mut trees = [0u8; PB_MAX];
+    unsafe {
+        PB_CALLS = 0; WB_CALLS = 0; WB_PAD = 0; PB_FAIL_AT = kani::any();
+        PB_LAST = [2; PB_MAX]; WB_LOG = [[0xEE; 4]; PB_MAX]; PB_N = [0; PB_MAX];
+        let mut i = 0;
+        while i < NB {
+            let t: u8 = kani::any();
+            kani::assume(t <= 2);
+            let n: u8 = kani::any();
+            kani::assume(n <= 2);
+            let mut b = PreflateTokenBlock::new(bt_of(t));
+            b.padding_bits = i as u8;
+            let tree: u8 = kani::any();
+            kani::assume(tree >= 4 && tree <= 19);
+            b.huffman_encoding.num_code_lengths = if t == 2 { tree as usize } else { 0 };
+            types[i] = t; trees[i] = if t == 2 { tree } else { 0 };
+            PB_N[i] = n;
+            total += n as usize;
+            blocks.push(b);
+            i += 1;
+        }
+    }
+    kani::assume(total <= T);
+    let eof_padding: u8 = kani::any();
+    let params = PreflateParameters { huff_strategy: PreflateHuffStrategy::Dynamic, predictor: nodict_predictor_params(PreflateStrategy::HuffOnly) };
+    // parse_deflate's postcondition: plain_text is the concatenation of the blocks' plaintext
+    let contents = DeflateContents { compressed_size: 0, plain_text: Vec::new(), blocks, eof_padding };
+    let mut rec = Rec::new();
+    let r = predict_blocks_with_text(&contents, &text[..total], &params, &mut rec);
+    let ok = r.is_ok();
+    if ok {
+        unsafe {
+            assert!(PB_CALLS == NB, "predict_block not called once per block");
+            let mut i = 0;
+            while i < NB { assert!(PB_LAST[i] == (i == NB - 1) as u8, "last_block flag passed to predict_block is wrong"); i += 1; }
+        }
+        let d = decode_mispredictions(&params, PreflateInput::new(&text[..total]), &mut rec);
+        assert!(d.is_ok(), "decode_mispredictions fails on corrections encode_mispredictions produced");
+        let (out, blocks2) = d.unwrap();
+        assert!(blocks2.len() == NB, "number of blocks changed");
+        unsafe {
+            assert!(WB_CALLS == NB, "the writer did not get one encode_block call per block");
+            let mut i = 0;
+            while i < NB {
+                assert!(WB_LOG[i][0] == types[i] && WB_LOG[i][1] == i as u8, "block order or type changed");
+                assert!(WB_LOG[i][2] == trees[i], "a dynamic block reached the writer without (or with another block's) Huffman header");
+                assert!(WB_LOG[i][3] == (i == NB - 1) as u8, "final-block flag set on the wrong block");
+                i += 1;
+            }
+            assert!(WB_PAD == 0x100 + eof_padding as u32, "padding of the last byte not restored");
+        }
+        assert!(rec.fully_consumed(), "reconstruction did not consume the corrections exactly");
+        kani::cover!(NB < 2 || (unsafe { PB_N[NB - 1] } == 0 && total > 0), "empty block after the end of the plaintext");
+        kani::cover!(total == 0, "no plaintext at all");
+        kani::cover!(types[0] == 2, "dynamic block first");
+        core::mem::forget(out); core::mem::forget(blocks2);
+    }
+    kani::cover!(!ok, "predict_block reports Err");
+    core::mem::forget(r); core::mem::forget(contents);
+}
+/// encode_mispredictions with the plaintext held outside DeflateContents (a slice of a fixed array: no Vec of symbolic length)
+fn predict_blocks_with_text(contents: &DeflateContents, text: &[u8], params: &PreflateParameters, rec: &mut Rec) -> Result<(), PreflateError> {
+    let c2 = DeflateContents { compressed_size: 0, plain_text: unsafe { Vec::from_raw_parts(text.as_ptr() as *mut u8, text.len(), text.len()) }, blocks: Vec::new(), eof_padding: contents.eof_padding };
+    // (blocks are moved in by pointer copy; both Vecs are forgotten, never dropped)
+    let c3 = DeflateContents { compressed_size: 0, plain_text: c2.plain_text, blocks: unsafe { core::ptr::read(&contents.blocks) }, eof_padding: contents.eof_padding };
+    let r = encode_mispredictions(&c3, params, rec);
+    core::mem::forget(c3);
+    r
+}
+macro_rules! k02p { ($name:ident, $nb:expr) => {
+    kproof_vp! {
+        #[kani::stub(crate::token_predictor::TokenPredictor::predict_block, contract_predict_block)]
+        #[kani::stub(crate::token_predictor::TokenPredictor::recreate_block, contract_recreate_block)]
+        #[kani::stub(crate::tree_predictor::predict_tree_for_block, contract_predict_tree)]
+        #[kani::stub(crate::tree_predictor::recreate_tree_for_block, contract_recreate_tree)]
+        #[kani::stub(crate::deflate_writer::DeflateWriter::encode_block, contract_encode_block)]
+        #[kani::stub(crate::deflate_writer::DeflateWriter::flush_with_padding, contract_flush_with_padding)]
+        fn $name() { block_sequence::<$nb>(); }
+    }
+} }
+k02p!(k02p_block_sequence_1, 1);
+k02p!(k02p_block_sequence_2, 2);
+k02p!(k02p_block_sequence_3, 3);
